@@ -529,6 +529,7 @@ func (e *fnEnc) unop(i *ssa.UnOp) {
 		}
 		e.setVal(i, t)
 		e.vc.assume(e.typeFacts(e.val[i], T, 2))
+		e.assumeLoadedInv(e.val[i], T)
 	case token.NOT:
 		e.setVal(i, sNot(e.term(i.X)))
 	case token.SUB:
@@ -735,6 +736,7 @@ func (e *fnEnc) lookup(i *ssa.Lookup) {
 			vn := e.vc.fresh(e.name(i)+".v", e.S().SortOf(mt.Elem()))
 			e.vc.def(sEq(vn, v))
 			e.vc.assume(e.typeFacts(vn, mt.Elem(), 2))
+			e.assumeLoadedInv(vn, mt.Elem())
 			on := e.vc.fresh(e.name(i)+".ok", "Bool")
 			e.vc.def(sEq(on, has))
 			e.tuples[i] = []string{vn, on}
@@ -742,6 +744,7 @@ func (e *fnEnc) lookup(i *ssa.Lookup) {
 		}
 		e.setVal(i, v)
 		e.vc.assume(e.typeFacts(e.val[i], mt.Elem(), 2))
+		e.assumeLoadedInv(e.val[i], mt.Elem())
 		return
 	}
 	// string index
@@ -947,6 +950,7 @@ func (e *fnEnc) next(i *ssa.Next) {
 			e.vc.assume(sImp(okn, sAnd(fmt.Sprintf("(not (= %s 0))", m),
 				fmt.Sprintf("(select (select %s %s) %s)", e.heap(e.S().MapHasKey(mt)), m, k),
 				sEq(vn, fmt.Sprintf("(select (select %s %s) %s)", e.heap(e.S().MapValKey(mt)), m, k)))))
+			e.assumeLoadedInv(vn, mt.Elem())
 		}
 		key := HeapKey{Name: "ITER!" + e.prefix + rng.Name(), Sort: "Int"}
 		e.setHeap(key, fmt.Sprintf("(+ %s 1)", e.heap(key)))
@@ -1073,4 +1077,12 @@ func (e *fnEnc) entryHeapName(k HeapKey) string {
 		return v
 	}
 	return "H0!" + k.Name
+}
+
+// assumeLoadedInv: an object reached through the heap satisfies its declared type invariant
+// (objects are only inconsistent inside the functions that are rebuilding them; listed assumption).
+func (e *fnEnc) assumeLoadedInv(t string, T types.Type) {
+	for _, f := range e.typeInvFormulas(t, T, e.cur) {
+		e.vc.assume(sImp(e.guard(), f.f))
+	}
 }
